@@ -123,11 +123,16 @@ func (s *DiskKeyIndex) findAt(off uint64) (*proto.IndexEntry, error) {
 
 	record := &proto.IndexEntry{}
 	_, _, err := s.reader.SeekNext(record, off)
+	if err != nil {
+		// a failed read must not be remembered: the cache would answer the next lookup with an empty entry and no error
+		return record, err
+	}
+
 	if len(s.offsetCache) < s.offsetCacheMaxSize {
 		s.offsetCache[off] = record
 	}
 
-	return record, err
+	return record, nil
 }
 
 func (s *DiskKeyIndex) newIterator(offset, endOffset uint64) *DiskKeyIndexIterator {
